@@ -52,8 +52,9 @@ theorem nest_size (td : TreeDef) (ss : List Struct) :
 
 /-- products and sums built by the arithmetic dunders have the structures of the product / of the operands -/
 theorem matmul_structures {V} (A : ArithSem V) (a b r : Op) (ha : ArithSem.WFtop a) (hb : ArithSem.WFtop b)
+    (hai : A.LazyInvertible a) (hbi : A.LazyInvertible b)
     (h : pyMatmul a b = .ok r) : Op.inS r = Op.inS b ∧ Op.outS r = Op.outS a :=
-  let ⟨_, h2, h3, _⟩ := A.pyMatmul_den a b r ha hb h; ⟨h2, h3⟩
+  let ⟨_, h2, h3, _⟩ := A.pyMatmul_den a b r ha hb hai hbi h; ⟨h2, h3⟩
 
 /-- reduction keeps the typing of a chain (hence its input and output structures), for any sound rule set -/
 theorem reduction_keeps_structures {V} (L : OpSem V) (red : Op → Except PyErr Op)
